@@ -181,7 +181,7 @@ PROPS = {
         "level": "proof",
         "lean_modules": ["AnyTLS.Props.C13"],
         "groups": [{"group": "e2e", "only": "reuse", "quick_cases": 3, "thorough_cases": 40},
-                   {"group": "pool", "quick_cases": 600, "thorough_cases": 10000, "ignore_sigs": ["reaper_closed_busy_session/"]}],
+                   {"group": "pool", "quick_cases": 600, "thorough_cases": 10000, "ignore_sigs": ["reaper_closed_busy_session/", "fewer_than_min_idle/"]}],
         "rule": "e2e reuse n = n sequential non-overlapping Client::create_proxy_stream calls (n in 2..12, fixed n = 6) against a real server on loopback behind a counting TCP relay; observed: identity of the session serving each request (renumbered) and number of TLS connections; the Lean pool model predicts both (sequentialRun) and the prediction is compared line by line; pool cases as for C12 (which idle session a request is given: get_idle_session's choice among open and closed entries); non-trivial = every case; distinct by SHA-1 of the op lines",
         "level_text": "the property is FALSE of the code and recorded as a known finding: both full statements are kept (sequential_reuse, bounded_sessions) with kernel-checked refutations (sequential_reuse_refuted: three sequential requests dial twice; bounded_sessions_refuted: six requests leave three sessions open) and the model predicts the real client's behaviour exactly (sessions [0,0,1,1,2,2,...], ceil(n/2) dials; sequential_dials_instances). What does hold is proved: the second of two non-overlapping requests reuses the first one's session for every pool setting (second_request_reuses_partial) and a request dials only when no open idle session exists (dial_only_when_no_idle). Any deviation from the predicted behaviour, in either direction, breaks the correspondence and is reported",
         "level_note": "trusted: Lean kernel, extract.py, harness+driver glue; real loopback TLS sessions; the repair (return the session to the pool when its stream ends) depends on stream completion being tracked (C08's finding)",
